@@ -2728,14 +2728,16 @@ COUNTERS = [("cat_object", "obj", ["index", "partial_cntr", "length", "position"
             ("cat_descriptor", "desc", ["cmd_group_num", "buf_size", "unsolicited_buf_size"])]
 UWIDTH = {"unsigned long": 64, "unsigned long long": 64, "unsigned int": 32, "unsigned short": 16, "unsigned char": 8, "unsigned __int128": 128}
 COUNTER_PROPS = {
-    "obj_index": {"C02", "C03", "C04", "C09", "C19"}, "obj_partial_cntr": {"C02", "C03"}, "obj_length": {"C01", "C02", "C03", "C06"},
-    "obj_position": {"C03", "C04", "C05", "C06", "C07", "C11", "C19"}, "obj_write_size": {"C03", "C05"},
-    "obj_commands_num": {"C02", "C03", "C19"},
-    "uns_index": {"C03", "C07", "C19"}, "uns_position": {"C03", "C07", "C11", "C19"},
+    "obj_index": {"C02", "C03", "C04", "C05", "C07", "C08", "C09", "C19"}, "obj_partial_cntr": {"C02", "C03", "C09"},
+    "obj_length": {"C01", "C02", "C03", "C04", "C05", "C06", "C07", "C20"},
+    "obj_position": {"C03", "C04", "C05", "C06", "C07", "C10", "C11", "C19"}, "obj_write_size": {"C03", "C05", "C07"},
+    "obj_commands_num": {"C02", "C03", "C09", "C19"},
+    "uns_index": {"C03", "C07", "C13", "C19"}, "uns_position": {"C03", "C07", "C10", "C11", "C13", "C19"},
     "uns_unsolicited_cmd_buffer_tail": {"C03", "C13"}, "uns_unsolicited_cmd_buffer_head": {"C03", "C13"},
-    "uns_unsolicited_cmd_buffer_items_count": {"C03", "C13", "C15"},
-    "var_data_size": {"C03", "C04", "C05", "C07"}, "cmd_var_num": {"C03", "C04", "C07", "C19"}, "group_cmd_num": {"C02", "C03", "C19"},
-    "desc_cmd_group_num": {"C02", "C03", "C19"}, "desc_buf_size": {"C03", "C06"}, "desc_unsolicited_buf_size": {"C03", "C06"},
+    "uns_unsolicited_cmd_buffer_items_count": {"C03", "C13", "C15", "C18"},
+    "var_data_size": {"C03", "C04", "C05", "C07", "C08"}, "cmd_var_num": {"C03", "C04", "C05", "C07", "C08", "C19"},
+    "group_cmd_num": {"C02", "C03", "C09", "C19"},
+    "desc_cmd_group_num": {"C02", "C03", "C09", "C19"}, "desc_buf_size": {"C03", "C06", "C11"}, "desc_unsolicited_buf_size": {"C03", "C06", "C11"},
 }
 
 
